@@ -104,6 +104,14 @@ def _table(chk, thorough):
             clause, observed = 'sym_init_args', 'different-value'
         elif kind != 'TypeError':
           clause, observed = 'error-kind', kind
+        if clause is None and err == 'ok' and (thorough or (i + 3 * j) % 5 == 0):
+          for how, (ckind, cval) in cr.run_copies(gen, b, c['nargs'], c['kw']).items():
+            chk.count('copies:' + how)
+            if ckind != 'ok' or cr.plain(cval) != exp:
+              _report(chk, {'mode': 'table', 'binding': b, 'clause': how, 'expected': 'ok',
+                            'observed': ckind if ckind != 'ok' else 'different-value'},
+                      {'function': gen.src.splitlines()[0], 'call': cr.call_args(c['nargs'], c['kw'], 300, 400),
+                       'expected': exp, 'observed': cval})
         if clause:
           _report(chk, {'mode': 'table', 'binding': b, 'clause': clause, 'expected': err, 'observed': observed},
                         {'function': gen.src.splitlines()[0], 'call': cr.call_args(c['nargs'], c['kw'], 300, 400),
@@ -117,6 +125,8 @@ def _table(chk, thorough):
                         'outcome_kinds': kinds, 'generated_signatures_checked': sig_checked}
   for k in ('ok', 'toomany', 'multiple', 'unexpected', 'missing'):
     chk.require(kinds.get(k, 0) > 0, f'vacuous: no table entry with outcome {k}')
+  for k in ('copies:clone', 'copies:json') + tuple('table:' + b for b in cr.BINDINGS):
+    chk.require(chk.counters.get(k, 0) > 0, f'vacuous: {k} never exercised')
 
 
 def _lifecycle(chk, thorough):
